@@ -2,9 +2,13 @@ SPECIFICATION Spec
 CONSTANTS
   MaskUpdated = FALSE
   MaxOps = 3
+  MaxRep = 3
   MaxPool = 3
   Sizes = {1}
   MaxParts = 2
+  Fams = {"wf"}
+  Take = FALSE
+  Linear = FALSE
   Export = FALSE
 VIEW View
 INVARIANTS PropertyHolds
